@@ -388,6 +388,10 @@ def index(base, k):
         # np.minimum(a, b)[k] is the smaller of the two elements: the same normal form as np.min([a[k], b[k]])
         parts = [x if scalar_value(x) else index(x, k) for x in base[2]]
         return ('call', base[1][:3], (('tuple', sort_terms(parts)),), ())
+    if base[0] == 'call' and base[1] == 'split' and len(base[2]) == 2 and not base[3] and k[0] == 'lin' and _front_index(k) and k[1] >= 1:
+        # np.split(x, I)[j] for j >= 1 is the piece between consecutive split points: x[I[j-1]:I[j]]
+        x, pts = base[2]
+        return slice_(x, index(pts, sub(k, ('const', 1))), index(pts, k))
     if base[0] == 'slice' and base[4] == NONE:
         # X[a:b][i] == X[i + a] for an index counted from the front; X[a:-m][-j] == X[-j - m] from the back
         lo, hi = base[2], base[3]
@@ -453,6 +457,8 @@ def length(a):
         return keylen(a[1])
     if tag == 'call' and a[1] in ('zeros', 'ones', 'full') and a[2] and a[2][0][0] != 'tuple':
         return a[2][0]
+    if tag == 'call' and a[1] == 'split' and len(a[2]) == 2 and not a[3]:
+        return add(length(a[2][1]), ('const', 1))          # np.split(x, I) has len(I) + 1 pieces
     if tag == 'call' and a[1] == 'interp' and a[2]:
         return length(a[2][0])                   # np.interp returns one value per query point
     if tag == 'call' and a[1] == 'arange' and len(a[2]) == 1 and not a[3]:
